@@ -86,7 +86,7 @@ def gen_notes(rng, cls, le, core, machine, count=None, allow_header_only_last=Tr
             desc = b''
             kinds = []
             for j in range(rng.randint(1, 6)):
-                pk = rng.choice(['x86', 'x86b', 'aarch64', 'stack', 'nocopy', 'unk', 'unk0'])
+                pk = rng.choice(['x86', 'x86b', 'aarch64', 'stack', 'nocopy', 'unk', 'unk0', 'procwide'])
                 if pk == 'x86':
                     pt, v = 0xc0000002, rng.getrandbits(32)
                     pd, pv = struct.pack(E + 'I', v), v
@@ -102,6 +102,12 @@ def gen_notes(rng, cls, le, core, machine, count=None, allow_header_only_last=Tr
                     pd, pv = struct.pack(E + W, v), v
                 elif pk == 'nocopy':
                     pt, pd, pv = 2, b'', b''
+                elif pk == 'procwide':
+                    # processor-range properties whose data is wider than one word (AArch64 PAUTH: platform and version, two
+                    # 64-bit words); whatever name a table gives them, all of the data is part of the decoded property
+                    pt = rng.choice([0xc0000001, 0xc0000001, 0xc0000003, 0xc0008000])
+                    pd = bytes(rng.getrandbits(8) for _ in range(rng.choice([16, 16, 8, 12])))
+                    pv = pd
                 elif pk == 'unk0':
                     pt, pd, pv = rng.choice([0x1234, 0xb0000000, 0xfffffff0]), b'', b''
                 else:
